@@ -116,6 +116,14 @@ func (x *Exec) lookupIdent(st *State, fr *Frame, name string, sc *scope) (Val, e
 			x.Abstracted["renamed local followed by its definition: "+name+" -> "+n2]++
 			name = n2
 		}
+		if strings.HasPrefix(name, "head_") {
+			if n2 := renamedLocal(fr.fn, name[5:]); n2 != "" {
+				if _, ok := sc.vars["head_"+n2]; ok {
+					x.Abstracted["renamed local followed by its definition: "+name+" -> head_"+n2]++
+					name = "head_" + n2
+				}
+			}
+		}
 	}
 	if v, ok := sc.vars[name]; ok {
 		if os.Getenv("GVC_TRACE_IDENT") == name {
@@ -218,6 +226,15 @@ func (x *Exec) lookupIdent(st *State, fr *Frame, name string, sc *scope) (Val, e
 			x.Abstracted["local that moved into an extracted helper, followed by its definition: "+name+" -> "+n2]++
 			return x.lookupIdent(st, fr, n2, sc)
 		}
+		if strings.HasPrefix(name, "head_") {
+			// head_<local>: the loop variable moved along with its loop
+			if n2 := movedLocal(fr.fn, x.TopName, name[5:]); n2 != "" {
+				if v, ok := sc.vars["head_"+n2]; ok {
+					x.Abstracted["local that moved into an extracted helper, followed by its definition: "+name+" -> head_"+n2]++
+					return v, nil
+				}
+			}
+		}
 		for i := len(st.frames) - 1; i >= 0; i-- {
 			if st.frames[i] == fr {
 				for j := i - 1; j >= 0; j-- {
@@ -229,6 +246,18 @@ func (x *Exec) lookupIdent(st *State, fr *Frame, name string, sc *scope) (Val, e
 				}
 				break
 			}
+		}
+	}
+	if fr != nil && st != nil && fr.fn.Parent() != nil && len(st.frames) > 0 && st.frames[0] == fr {
+		// a parameter of the function that makes this closure (capture.go)
+		if v, ok := st.meta["outerparam:"+name]; ok {
+			x.Abstracted["parameter of the enclosing function named by a closure's clause: "+name]++
+			return v, nil
+		}
+	}
+	if fr != nil && st != nil && !sc.noOuter {
+		if v, ok := x.helperLocal(st, fr, name); ok {
+			return v, nil
 		}
 	}
 	if fr != nil && st != nil {
@@ -1328,4 +1357,57 @@ func constFalse(t Term) bool {
 		return !(a >= b)
 	}
 	return false
+}
+
+
+// helperLocal: a local of the recorded function under contract that is gone from it because the lines
+// that defined it were moved into a new helper which has already returned on this path: the value it had
+// when the helper returned. The helper's local is the one with the recorded definition, else the one with
+// the recorded name; it must be unique among the helpers that ran.
+func (x *Exec) helperLocal(st *State, fr *Frame, name string) (Val, bool) {
+	if os.Getenv("GVC_NO_RENAME") != "" || st.meta == nil {
+		return Val{}, false
+	}
+	base := loadBaseNames()[baseKey(fr.fn)]
+	want, ok := base[name]
+	if !ok || want == "" {
+		return Val{}, false
+	}
+	if _, still := currentNames(fr.fn)[name]; still {
+		return Val{}, false
+	}
+	var byDef, byName []string
+	for k := range st.meta {
+		if !strings.HasPrefix(k, "hl:") {
+			continue
+		}
+		rest := k[3:]
+		i := strings.LastIndex(rest, ":")
+		if i < 0 {
+			continue
+		}
+		hfn, hn := rest[:i], rest[i+1:]
+		f := x.P.Funcs[hfn]
+		if f == nil {
+			continue
+		}
+		if currentNames(f)[hn] == want {
+			byDef = append(byDef, k)
+		}
+		if hn == name {
+			byName = append(byName, k)
+		}
+	}
+	pick := ""
+	switch {
+	case len(byDef) == 1:
+		pick = byDef[0]
+	case len(byDef) == 0 && len(byName) == 1:
+		pick = byName[0]
+	}
+	if pick == "" {
+		return Val{}, false
+	}
+	x.Abstracted["local that moved into an extracted helper, read after the helper returned: "+name]++
+	return st.meta[pick], true
 }
